@@ -38,6 +38,9 @@ POINTS = ['before', 'between', 'during']
 N = {'quick': 330, 'thorough': 6000}
 
 
+OPTIMIZED_SAMPLE = 1     # the first shard once more under python -O (vf/runner.py)
+
+
 def exhaustive(tier):
     return False
 
@@ -91,6 +94,7 @@ def run_case(res, case, attempt=0):
     pair = STANDARD_ABORTS[k % len(STANDARD_ABORTS)] if k < 3 * len(STANDARD_ABORTS) else (
         r.choice([0, 2, r.randrange(256)]), r.randrange(256))
     point = POINTS[k % 3]
+    reject_form = rng(seed, 'c14-form', i).randrange(5)
     res.evaluations += 1 if not attempt else 0
     res.distinct.add('%s|%s|%s|%s' % (scenario, triple, pair if 'abort' in scenario else '', point))
     case = dict(case, scenario=scenario, triple=triple, pair=pair, point=point)
@@ -131,6 +135,18 @@ def run_case(res, case, attempt=0):
                     # requested from this very entity), then refuses
                     with self.request_association(extra['directory']) as lookup:
                         extra['lookup_status'] = int(lookup.get_scu(svc.VERIFICATION)(1))
+                form = reject_form
+                if form == 0:
+                    # a human-readable message after the three fields (the constructor passes it on)
+                    res.count('sim.refusal-with-message')
+                    raise exceptions.AssociationRejectedError(triple[0], triple[1], triple[2],
+                                                              'refused by policy %d' % k)
+                if form == 1:
+                    # the application adjusts the fields of an error it got from elsewhere
+                    res.count('sim.refusal-fields-reassigned')
+                    exc = exceptions.AssociationRejectedError(1, 1, 1)
+                    exc.result, exc.source, exc.diagnostic = triple
+                    raise exc
                 if k % 2:
                     # the documented parameter names, given as keywords
                     raise exceptions.AssociationRejectedError(result=triple[0], source=triple[1],
@@ -192,6 +208,10 @@ def run_case(res, case, attempt=0):
     def make_client():
         client = applicationentity.ClientAE('C14SCU', supported_ts=['1.2.840.10008.1.2'], max_pdu_length=256)
         client.timeout = 5
+        if scenario == 'release-lib-lib' and k % 3 == 1:
+            # no limit (None, as for any queue or socket wait); the peer here answers
+            client.timeout = None
+            res.count('sim.requestor-without-time-limit')
         client.add_scu(sopclass.verification_scu)
         client.add_scu(sopclass.storage_scu, [svc.CT])
         return client
